@@ -130,6 +130,44 @@ def handleC02 (cmd : String) (args : List Sexp) : Option Sexp :=
       match tdCat d tds with
       | .error e => pure (C02D.errSexp e)
       | .ok r => pure (tagged "ok" [C02D.treeSexp r])
+  | "c02.gather", [d, .list [.atom "idx", .list sh, .list vals], tree] => do
+      let d ← asInt? d; let sh ← nats? sh; let vals ← nats? vals; let td ← C02D.tree? tree
+      let index : T Nat := ⟨sh, fun c => vals.getD (ravel c sh) 0⟩
+      match td with
+      | .node bs names es =>
+        match gatherNode d index bs names es with
+        | .error e => pure (C02D.errSexp e)
+        | .ok r => pure (tagged "ok" [C02D.treeSexp r])
+      | _ => pure (C02D.errSexp .type)
+  | "c02.msel", [.list [.atom "mask", .list sh, .list vals], tree] => do
+      let sh ← nats? sh; let vals ← nats? vals; let td ← C02D.tree? tree
+      let mask : T Bool := ⟨sh, fun c => vals.getD (ravel c sh) 0 != 0⟩
+      match td with
+      | .node bs names es =>
+        match mselNode mask bs names es with
+        | .error e => pure (C02D.errSexp e)
+        | .ok r => pure (tagged "ok" [C02D.treeSexp r])
+      | _ => pure (C02D.errSexp .type)
+  | "c02.torch_gather", [d, .list [.atom "idx", .list ish, .list vals], .list sh] => do
+      let d ← asNat? d; let ish ← nats? ish; let vals ← nats? vals; let sh ← nats? sh
+      let index : T Nat := ⟨ish, fun c => vals.getD (ravel c ish) 0⟩
+      match Torch.gather d index (arange sh) with
+      | .error e => pure (C02D.errSexp e)
+      | .ok r => pure (tagged "ok" [C02D.tensorSexp r])
+  | "c02.torch_msel", [.list [.atom "mask", .list msh, .list vals], .list sh] => do
+      let msh ← nats? msh; let vals ← nats? vals; let sh ← nats? sh
+      let mask : T Bool := ⟨msh, fun c => vals.getD (ravel c msh) 0 != 0⟩
+      pure (tagged "ok" [C02D.tensorSexp (T.maskedSelect mask (arange sh))])
+  | "c02.torch_stack", d :: shapes => do
+      let d ← asNat? d
+      let shs ← shapes.mapM fun (x : Sexp) => match x with | Sexp.list l => nats? l | _ => none
+      let ts : List (T Nat) := shs.zipIdx.map fun (sh, i) => ⟨sh, fun c => ravel c sh + 100000 * i⟩
+      pure (tagged "ok" [C02D.tensorSexp (T.stack ts d)])
+  | "c02.torch_cat", d :: shapes => do
+      let d ← asNat? d
+      let shs ← shapes.mapM fun (x : Sexp) => match x with | Sexp.list l => nats? l | _ => none
+      let ts : List (T Nat) := shs.zipIdx.map fun (sh, i) => ⟨sh, fun c => ravel c sh + 100000 * i⟩
+      pure (tagged "ok" [C02D.tensorSexp (T.cat ts d)])
   | "c02.torch_repeat", [.list reps, .list sh] => do
       let reps ← nats? reps; let sh ← nats? sh
       pure (tagged "ok" [C02D.tensorSexp ((arange sh).repeat reps)])
